@@ -207,6 +207,9 @@ def _param_to_blackbird(a):
     """Converts an operation parameter to the object representing it in a Blackbird operation."""
     if sfpar.par_is_symbolic(a):
         # SymPy object
+        if not a.atoms(sfpar.MeasuredParameter, sfpar.FreeParameter):
+            # a constant symbolic expression (e.g. produced by a decomposition): its value
+            return sfpar.par_evaluate(a)
         if any(isinstance(x, sfpar.MeasuredParameter) for x in a.free_symbols):
             # there are measured parameters in `a`
             return blackbird.RegRefTransform(a)
